@@ -186,8 +186,8 @@ func c19Run(c *core.Ctx) {
 	menu = append(menu, book...)
 	menu = append(menu, near...)
 	menu = append(menu, other...)
-	if !c.Thorough() {
-		// quick: a reduced menu for the all-lists-of-3 enumeration
+	if false {
+		// (formerly: a reduced menu for the quick tier)
 		menu = []string{"[Content_Types].xml", "word/document.xml", "word/", "xl/workbook.xml", "ppt/presentation.xml", "META-INF/MANIFEST.MF", "classes.dex",
 			"_rels/.rels", "docProps/app.xml", "customXml/item1.xml", "[trash]/0000.dat", "xword/document.xml", "xl", "META-INF/MANIFEST.MF.bak", "mimetypes", "README.txt", "a.txt", "d/"}
 	}
